@@ -453,6 +453,30 @@ func cmdSites(args []string) {
 	}
 	cs, _ := LoadContracts("/repo")
 	x := NewExec(ld, cs)
+	if len(args) == 1 && args[0] == "-raw" {
+		var keys []string
+		for k := range ld.funcs {
+			keys = append(keys, k)
+		}
+		sort.Strings(keys)
+		for _, k := range keys {
+			f := ld.funcs[k]
+			t := sites(f)
+			for _, b := range f.Blocks {
+				for i, in := range b.Instrs {
+					fmt.Printf("%s\t%d.%d\t%s\n", k, b.Index, i, t.names[in])
+				}
+			}
+		}
+		return
+	}
+	if len(args) == 1 && args[0] == "-all" {
+		args = nil
+		for k := range ld.funcs {
+			args = append(args, k)
+		}
+		sort.Strings(args)
+	}
 	for _, k := range args {
 		f := ld.funcs[k]
 		if f == nil {
